@@ -34,6 +34,9 @@ Nested ==
   \cup {Jn(<<a, Jn(p)>>) : p \in Pairs2, a \in A3}
   \cup {Od(<<Od(p), a>>) : p \in Pairs2, a \in A3}
   \cup {Od(<<Jn(p), a>>) : p \in Pairs2, a \in A3}
+  \* a compound whose only part is itself a compound
+  \cup {Od(<<Od(p)>>) : p \in Pairs2} \cup {Jn(<<Jn(p)>>) : p \in Pairs2} \cup {Od(<<Jn(p)>>) : p \in Pairs4} \cup {Jn(<<Od(p)>>) : p \in Pairs4}
+  \cup {Cp(Od(<<Od(p)>>)) : p \in Pairs4} \cup {Jn(<<a, Od(<<Od(p)>>)>>) : p \in Pairs4, a \in A4}
   \cup {Jn(<<Cp(a), Cp(b)>>) : a \in A2, b \in A2}
   \cup {Jn(<<Cp(Jn(p)), Cp(a)>>) : p \in Pairs2, a \in A3}
   \cup {Jn(<<Cp(a), Cp(Jn(p))>>) : p \in Pairs2, a \in A3}
@@ -68,7 +71,7 @@ StrAt(k) ==  \* k in 0..NStrings-1
 ProbeStrs == SetToSeq({"join(7..3,4..1)", "join(2..1,2..1)", "join(5..4,5..2)", "order(1..2,join(<9..8,9..>3))", "3..1", "0..0", "1..0",
    "join(complement(join(1..2,3..4)),5)", "join(1,1,1,1,1,1,1,1,1,1)", "complement(complement(complement(1)))", "order(join(order(1,2),3),4)",
    "join(3..1,1..3)", "join(1..3,3..1)", "join(<1..>1,<1..>1)", "complement(join(9..7,7..5))", "join(1^2,2..1)", "join(4..6,7..5)", "order(2..1)",
-   "join(join(6,5^6),6)", "join(complement(6),complement(join(6,5^6)))", "order(order(1..2,4..5),7..8)", "order(order(1,3),4^5,7..9)",
+   "join(join(6,5^6),6)", "join(complement(6),complement(join(6,5^6)))", "order(order(1..2,4..5),7..8)", "order(order(1..3,7..9))", "join(join(1..3,7..9))", "join(1..2,order(order(5,9)))", "order(order(1,3),4^5,7..9)",
    "join(complement(7..9),complement(join(1..2,4..6)))", "join(1..>3,<7..9)", "join(12..34,56..78)", "complement(join(100..200,300..>400))",
    "join(1..2,3..4,5..6,7..8,9..10,11..12,13..14,15..16,17..18,19..20,21..22,23..24)", "1.5", "join(1.5,7.9)", "order(<1..2,3^4,5,6..>7)"})
 NItems == IF Mode = "terms" THEN Len(TermSeq) ELSE NStrings
